@@ -35,10 +35,13 @@ def layouts():
                                                  rotational_frequency=1), gap=2e-3, **kw)
     ip2 = lambda: Profile.round(diameter=30e-3, temperature=1473.15, material=["C45", "steel"], length=1, density=7.5e3)
     ip3 = lambda: Profile.round(diameter=55e-3, temperature=1473.15, strain=0, material=["C45", "steel"], flow_stress=100e6, length=1)
+    ip4 = lambda: Profile.round(diameter=30e-3, temperature=1473.15, strain=0.25, material=["C45", "steel"], length=1, density=7.5e3)
     out = []
     out.append(('flat', lambda: PassSequence([oval(), Transport(label="t1", duration=1), rnd(), Transport(label="t2", duration=2), oval2()]), ip2, False))
     out.append(('nested', lambda: PassSequence([PassSequence([oval(), Transport(label="t1", duration=1)], label="inner"), rnd(),
-                                                PassSequence([Transport(label="t2", duration=0.5), oval2()], label="inner2")]), ip2, False))
+                                                PassSequence([Transport(label="t2", duration=0.5), oval2()], label="inner2")]), ip4, False))
+    out.append(('ends-with-transport', lambda: PassSequence([PassSequence([oval(), Transport(label="t1", duration=1)], label="inner"),
+                                                             Transport(label="t9", duration=0.5, velocity=1.0)]), ip4, False))
     out.append(('cooling+rotator', lambda: PassSequence([oval(), CoolingPipe(label="cp", duration=1.5, inner_radius=0.05, coolant_volume_flux=1e-3),
                                                          Rotator(label="rot", rotation=90), rnd()]), ip2, False))
     out.append(('disks', lambda: PassSequence([oval(disk_element_count=3), Transport(label="t1", duration=1, disk_element_count=4), rnd(disk_element_count=5)]), ip2, False))
@@ -48,7 +51,8 @@ def layouts():
     out.append(('three-roll', lambda: PassSequence([
         ThreeRollPass(label="o3", roll=Roll(groove=CircularOvalGroove(depth=8e-3, r1=6e-3, r2=40e-3, pad_angle=30), nominal_radius=160e-3, rotational_frequency=1), gap=2e-3),
         Transport(label="t", duration=1),
-        ThreeRollPass(label="r3", roll=Roll(groove=RoundGroove(r1=3e-3, r2=25e-3, depth=11e-3, pad_angle=30), nominal_radius=160e-3, rotational_frequency=1), gap=2e-3)]), ip3, False))
+        ThreeRollPass(label="r3", roll=Roll(groove=RoundGroove(r1=3e-3, r2=25e-3, depth=11e-3, pad_angle=30), nominal_radius=160e-3, rotational_frequency=1), gap=2e-3),
+        Rotator(label="rot3", rotation=60)]), ip3, False))
     return out
 
 
@@ -116,6 +120,12 @@ def check_sequence(chk, name, seq, returned, ip, prec):
                 fail('strain-reset', f"{u}: transport out strain {float(u.out_profile.strain)}")
             if isinstance(u, Rotator) and float(u.duration) != 0:
                 fail('rotator-duration', f"{u}: rotator duration {float(u.duration)}")
+            if isinstance(u, Rotator):
+                from shapely.affinity import rotate as _rot
+                P, Q = u.in_profile.cross_section, u.out_profile.cross_section
+                if _rot(P, float(u.rotation), origin=(0, 0)).symmetric_difference(Q).area > 1e-9 * P.area:
+                    fail('rotator-axis', f"{u}: the outgoing section is not the incoming one turned by {float(u.rotation):g} degrees about the rolling axis "
+                                         f"(centroid {P.centroid.x:.4g}, {P.centroid.y:.4g} -> {Q.centroid.x:.4g}, {Q.centroid.y:.4g})")
             # disk elements
             disks = list(u.subunits) if not isinstance(u, PassSequence) else []
             if disks:
@@ -141,6 +151,14 @@ def check_sequence(chk, name, seq, returned, ip, prec):
                     fail('seq-sums', f"{u}: duration/length are not the sums of the units' values")
                 if abs(float(u.power) - sum(float(x.power) for x in u.units)) > 1e-9 * max(1.0, abs(float(u.power))):
                     fail('seq-power', f"{u}: power is not the sum of the units' powers")
+                # what leaves a sequence is what leaves its last unit - falsy values (a strain of 0 after a transport) included
+                if u.units:
+                    lastu = u.units[-1]
+                    for k in ('strain', 't', 'length', 'temperature'):
+                        if hasattr(lastu.out_profile, k) and hasattr(u.out_profile, k):
+                            a, b = float(getattr(u.out_profile, k)), float(getattr(lastu.out_profile, k))
+                            if abs(a - b) > 1e-12 * max(1.0, abs(b)):
+                                fail('seq-out', f"{u}: delivers {k} = {a}, its last unit {lastu} delivered {b}")
             last = public(u.out_profile)
         return last
     walk([seq], public(ip))
